@@ -601,7 +601,7 @@ def run(spec, mon):
     n = 60 if tier == "quick" else 2500
     for i in range(n):
         gen = {"p_table": 0.3, "p_doc": 0.3, "p_background": 0.6, "p_rule_background": 0.6, "max_rules": 2, "p_nonpass": 0.3}
-        case = RB.gen_case(rng, gen=gen, p_stop=0.15, p_dry=0.15, p_noskipped=0.4)
+        case = RB.gen_case(rng, gen=gen, p_stop=0.15, p_dry=0.15, p_noskipped=0.4, p_names=0.15)
         extra = []
         if rng.random() < 0.3:
             extra.append("--no-multiline")
